@@ -219,6 +219,10 @@ class Prop(SeqProp):
                             starts[0] = num(-2 * 10 ** 6); ends[0] = num(2 * 10 ** 6)
                     elif form == 1:
                         S = cls_of(name)(iter(vals), eq_relation=relcls[rel]())
+                    elif len(vals) % 2:
+                        # the iterable-of-spans form checks for duplicates whatever the flag says (documented: the flag is for the
+                        # starts / ends form)
+                        S = cls_of(name)(vals, eq_relation=relcls[rel](), force_no_dup_check=True)
                     else:
                         S = cls_of(name)(vals, eq_relation=relcls[rel]())
                     env[name] = S
